@@ -53,6 +53,16 @@ def read_run(path, extra_names=()):
     return out
 
 
+def frame_hash_of_solution(sol):
+    """hash of the arrays a seed Solution hands to a continuation (its in-memory TDGLData)"""
+    d = sol.tdgl_data
+    h = hashlib.sha256()
+    for nm in ("psi", "mu", "supercurrent", "normal_current", "induced_vector_potential"):
+        arr = np.ascontiguousarray(np.asarray(getattr(d, nm)))
+        h.update(nm.encode() + str(arr.dtype).encode() + arr.tobytes())
+    return h.hexdigest()[:16]
+
+
 def build_device(tdgl, a):
     dev = devices.make(tdgl, a.get("dev", "bar"), probes=2, mel=a.get("mel", 0.8))
     probes = a.get("probes", 2)
@@ -140,8 +150,24 @@ def solve_frames(tdgl, a, tmp):
                     # the first frame of a resumed piece is the seed: it must equal the last frame of the previous piece
                     fr = dict(fr, seed_frame=True)
                 frames.append(dict(fr, step=fr["step"] + offset, piece=n))
+            prev_offset = offset
             offset = frames[-1]["step"]
+            prev_seed = seed
             seed = sol
+        if a.get("seed_twice") and len(pieces) > 1:
+            # history on the seed object: a SECOND continuation from the same in-memory seed Solution must
+            # reproduce the first one bit for bit (same observation keys), and the seed must be unchanged
+            n = len(pieces) - 1
+            before = frame_hash_of_solution(prev_seed)
+            path = os.path.join(work, f"piece{n}_again.h5")
+            o = options(tdgl, dict(a, solve_time=pieces[n], skip_time=0.0, k=a.get("k2", a.get("k", 1))), path)
+            sol2 = tdgl.solve(dev, o, seed_solution=prev_seed, **kw)
+            r2 = read_run(sol2.path, extra_names=("applied_vector_potential", "epsilon"))
+            for fr in r2["frames"]:
+                frames.append(dict(fr, step=fr["step"] + prev_offset, piece=n, again=True))
+            after = frame_hash_of_solution(prev_seed)
+            frames.append({"idx": -1, "step": -1, "time": "seed", "hash": before, "piece": n, "seed_before": True})
+            frames.append({"idx": -1, "step": -1, "time": "seed", "hash": after, "piece": n, "seed_after": True})
         return {"args": a, "frames": frames, "mesh": mesh}
     finally:
         tempfile.tempdir = old_tempdir
